@@ -854,7 +854,16 @@ class TorConfig:
             # v will be txtorcon.DEFAULT_VALUE already from
             # parse_keywords if it was unspecified
             real_name = self._find_real_name(k)
-            if real_name in self.parsers:
+            if v == DEFAULT_VALUE:
+                # the option is back to its default: report that, as
+                # bootstrap does for an option Tor lists without a value
+                v = self.__dict__['_defaults'].get(real_name, DEFAULT_VALUE)
+                if real_name in self.list_parsers:
+                    if v == DEFAULT_VALUE:
+                        v = []
+                elif v != DEFAULT_VALUE and real_name in self.parsers:
+                    v = self.parsers[real_name].parse(v)
+            elif real_name in self.parsers:
                 v = self.parsers[real_name].parse(v)
             if real_name in self.list_parsers:
                 # list-valued options stay tracked lists, however
